@@ -5,6 +5,7 @@ import (
 	"fmt"
 	"log"
 	"os"
+	"path/filepath"
 	"strings"
 
 	"github.com/lopolopen/shoot/internal/constructor"
@@ -74,7 +75,7 @@ func main() {
 	srcMap := g.Generate(g)
 	var fileNames []string
 	for fname, src := range srcMap {
-		notedownSrc(fname, src)
+		notedownSrc(g.CommonFlags().Dir, fname, src)
 		fileNames = append(fileNames, fname)
 	}
 
@@ -94,9 +95,9 @@ func main() {
 	}
 }
 
-func notedownSrc(fileName string, src []byte) {
+func notedownSrc(dir string, fileName string, src []byte) {
 	// write to tmpfile first
-	tmpFile, err := os.CreateTemp(".", fmt.Sprintf(".%s_", fileName))
+	tmpFile, err := os.CreateTemp(dir, fmt.Sprintf(".%s_", fileName))
 	defer func() {
 		if tmpFile != nil {
 			_ = tmpFile.Close()
@@ -114,7 +115,7 @@ func notedownSrc(fileName string, src []byte) {
 	tmpFile.Close()
 
 	// rename tmpfile to output file
-	err = os.Rename(tmpFile.Name(), fileName)
+	err = os.Rename(tmpFile.Name(), filepath.Join(dir, fileName))
 	if err != nil {
 		logx.Fatalf("moving tempfile to output file: %s", err)
 	}
